@@ -283,8 +283,38 @@ func zzStepKind(k int, classes int) {
 	zz.Drain()
 	if zz.Symbolic() {
 		zz.Assertf(zz.Events("frozen-write") == 0, "C14.F1.tree-and-globals-read-only/"+kind, zz.EventText("frozen-write"))
+		// C14-F2: what the step hands back (its value, the bindings it made)
+		// must not alias process-wide state: a later store through such an
+		// alias would be visible to every other run
+		al := zz.FrozenAliases(v)
+		for _, name := range []string{"x", "v1", "v2", "k", "v", "e"} {
+			if rv, gerr := e.GetValue(name); gerr == nil {
+				al += zz.FrozenAliases(rv)
+			}
+		}
+		zz.Assert(al == 0, "C14.F2.no-alias-to-shared-state/"+kind)
 		zz.Unfreeze()
 	} else {
+		// native oracle for F2: store through every alias the step handed
+		// back, then look at the shared nil
+		if p, ok := v.(*interface{}); ok && p != nil {
+			old := *p
+			*p = int64(12345)
+			zz.Assert(nilValue.IsNil() && env.NilValue.IsNil(), "C14.F2.no-alias-to-shared-state/"+kind)
+			*p = old
+		}
+		for _, name := range []string{"x", "v1", "v2", "k", "v", "e"} {
+			if rv, gerr := e.GetValue(name); gerr == nil && rv.CanSet() && rv.Kind() == reflect.Interface {
+				old := reflect.ValueOf(rv.Interface())
+				rv.Set(reflect.ValueOf(int64(12345)))
+				zz.Assert(nilValue.IsNil() && env.NilValue.IsNil(), "C14.F2.no-alias-to-shared-state/"+kind)
+				if old.IsValid() {
+					rv.Set(old)
+				} else {
+					rv.Set(reflect.Zero(rv.Type()))
+				}
+			}
+		}
 		zz.Assert(zzDump(node) == before, "C14.F1.tree-and-globals-read-only/"+kind)
 	}
 	zz.Assertf(!panicked, "C01.step.no-panic/"+kind, zzPanicMsg)
